@@ -1,5 +1,6 @@
 CONSTANTS
   NS = 2
+  Modes = {"services", "manager"}
   ReaderFair = FALSE
 SPECIFICATION Spec
 INVARIANTS TypeOK ReportedAtMostOnce NeverSendOnClosed
